@@ -74,6 +74,19 @@ def run_sharded(exe, mode, lines, workdir, tag, env, nsh=None, timeout=3600):
     return out
 
 
+def retry_timeouts(drv, mode, lines, outs, workdir):
+    """a TIMEOUT (or a missing line) on a starved machine is not a hang: such cases are run once more, few at a time,
+    with a generous limit, before they are judged"""
+    again = [i for i, o in enumerate(outs) if "TIMEOUT" in o or o == "<missing>"]
+    if again:
+        o2 = run_sharded(drv, mode, [lines[i] for i in again], workdir, mode + "-retry",
+                         env_with(ASAN_OPTIONS=ASAN_FAST, UBSAN_OPTIONS=UBSAN_FAST, C01_SECONDS="150"), nsh=4)
+        outs = list(outs)
+        for i, o in zip(again, o2):
+            outs[i] = o
+    return outs
+
+
 def tokens(line):
     d = {}
     order = []
@@ -180,6 +193,7 @@ def math_part(ctx, drv, mdl, quick):
     # --- the library
     lines = [b.encode().hex() for _, b, _, _ in cases]
     outs = run_sharded(drv, "math", lines, wd, "math", env_with(ASAN_OPTIONS=ASAN_FAST, UBSAN_OPTIONS=UBSAN_FAST))
+    outs = retry_timeouts(drv, "math", lines, outs, wd)
     hist = {}
     nbad = 0
     nontrivial = set()
@@ -265,6 +279,7 @@ def pow_part(ctx, drv, mdl):
     rc, out = vf.sh([mdl, "eval", evf], timeout=600)
     ml = out.split("\n")
     outs = run_sharded(drv, "pow", lines, wd, "pow", env_with(ASAN_OPTIONS=ASAN_FAST, UBSAN_OPTIONS=UBSAN_FAST), nsh=4)
+    outs = retry_timeouts(drv, "pow", lines, outs, wd)
     hist = {}
     nbad = 0
     for k, ((i, o), line) in enumerate(zip(cases, outs)):
